@@ -56,6 +56,21 @@ def seeded(ctx, rng, n):
             ys = [complex(rng.uniform(-2, 2), rng.uniform(-2, 2) if cx else 0) for _ in xs]
             ds = [complex(rng.uniform(-2, 2), rng.uniform(-2, 2) if cx else 0) for _ in xs]
         tol = 10.0 ** (-rng.uniform(6, 14))
+        if has_src and m >= 3 and rng.random() < 0.25:
+            # the first two listed points almost level: p = A + e x + (x - x1)(x - x2) q(x) with 0 < e < tol, so the slope
+            # between them - an intermediate quantity of every divided-difference scheme - is non-zero and below the
+            # coefficient-zeroing tolerance, while no coefficient of the interpolant itself is
+            tol = 10.0 ** (-rng.uniform(6, 8))
+            e = tol * rng.uniform(0.1, 0.9)
+            q = [complex(rng.uniform(-2, 2), rng.uniform(-2, 2) if cx else 0) for _ in range(deg - 1)]
+            q[-1] = complex(rng.choice([-1, 1]) * rng.uniform(0.5, 2), 0)
+            src = [complex(rng.uniform(-2, 2), 0), complex(e, 0)] + [0j] * (len(q))
+            for a, qa in enumerate(q):          # (x^2 - (x1 + x2) x + x1 x2) * q
+                src[a + 2] += qa
+                src[a + 1] -= (xs[0] + xs[1]) * qa
+                src[a] += xs[0] * xs[1] * qa
+            ys = [pe(src, x) for x in xs]
+            ds = [pe(pd(src), x) for x in xs]
         cz = lambda z: c11.cz(z.real, z.imag)
         cases.append({"kind": kind, "cx": cx, "xs": [cz(x) for x in xs], "ys": [cz(y) for y in ys], "ds": [cz(d) for d in ds],
                       "tol": fp(tol), "src": [cz(s) for s in src], "has_src": has_src, "mismatch": False})
